@@ -13,7 +13,9 @@ EXTENDS MxjXml, Json
 CONSTANTS Alpha, MaxElems, MaxTextKids
 VARIABLE d
 Init == d \in {XE(n, <<>>, <<>>) : n \in Alpha.names}
-Next == \E g \in GrowDoc(d, Alpha) : NElems(g) <= MaxElems /\ NTextKids(g) <= MaxTextKids /\ d' = g
+RECURSIVE NComm(_)
+NComm(e) == Len(SelectSeq(e.ch, LAMBDA x : x.k = "c")) + SumSeq([i \in 1..Len(ElemKids(e)) |-> NComm(ElemKids(e)[i])])
+Next == \E g \in GrowDoc(d, Alpha) : NElems(g) <= MaxElems /\ NTextKids(g) <= MaxTextKids /\ NComm(g) <= 1 /\ (NComm(g) = 1 => NTextKids(g) = 0) /\ d' = g
 Spec == Init /\ [][Next]_d
 Tk(k, nm, at, tx) == [k |-> k, nm |-> nm, at |-> at, tx |-> tx]
 RECURSIVE Toks(_)
@@ -40,5 +42,5 @@ Corruptions(ts) ==
 Total == \A c \in Corruptions(Toks(d)) : Class(c.ts) \in {"ok", "err", "eof"}
 Emit == PrintT(ToJson([f |-> "tok", cs |-> SetToSeq({[op |-> c.op, ts |-> c.ts, cls |-> Class(c.ts)] : c \in Corruptions(Toks(d))})]))
 N(l) == NM("", l)
-cAlpha == [names |-> {N(<<"a">>), N(<<"~", "B">>), NM("p", <<"a">>)}, anames |-> {N(<<"x">>)}, avals |-> {<<"1">>}, texts |-> {<<"t">>, <<"\n">>}, maxattrs |-> 1, comments |-> FALSE]
+cAlpha == [names |-> {N(<<"a">>), N(<<"~", "B">>), NM("p", <<"a">>)}, anames |-> {N(<<"x">>)}, avals |-> {<<"1">>}, texts |-> {<<"t">>, <<"\n">>}, maxattrs |-> 1, comments |-> TRUE, ctext |-> <<"4", "2">>]     \* (a comment whose whole text is a numeral: the cast forms must leave it text)
 =============================================================================
